@@ -1,6 +1,42 @@
-From LD Require Import Base F32 Data Model Ops Bucket Eval EvalFacts.
-(* first obligation; the full statements of DESIGN.md section 6 are added as they are proved *)
-Theorem C19_invalid_ctx_untouched : forall re_ok re_match o E P f,
-  run re_ok re_match o E P CInvalid f = Done (mkoutcome (err_detail KUserNotSpecified) false []).
-Proof. exact run_invalid. Qed.
-Print Assumptions C19_invalid_ctx_untouched.
+(* C19 Malformed data is always diagnosed in the error log *)
+From LD Require Import Base F32 Data Model Ops Bucket Eval EvalFacts Safety WellFormed Trace Transparent.
+
+Theorem C19_malformed_is_logged : forall re_ok re_match o E P c f out,
+  o_logger o = true -> run re_ok re_match o E P c f = Done out ->
+  rs_kind (d_reason (out_detail out)) = RError KMalformed ->
+  exists k e, In (OLog k e) (out_trace out).
+Proof. exact malformed_is_logged. Qed.
+Print Assumptions C19_malformed_is_logged.
+
+(* every nested evaluation that ends in MALFORMED_FLAG or aborts wrote a line during that nested call *)
+Theorem C19_nested_malformed_is_logged : forall re_ok re_match o E P c,
+  o_logger o = true -> forall fuel chain f,
+  grew (eval_flag re_ok re_match o E P c fuel chain f) bad_result.
+Proof. exact grew_eval_flag. Qed.
+Print Assumptions C19_nested_malformed_is_logged.
+
+Theorem C19_no_logger_no_lines : forall re_ok re_match o E P c f out,
+  o_logger o = false -> run re_ok re_match o E P c f = Done out -> forall k e, ~ In (OLog k e) (out_trace out).
+Proof. exact no_logger_no_lines. Qed.
+Print Assumptions C19_no_logger_no_lines.
+
+(* with no logger behaviour is otherwise identical *)
+Theorem C19_logger_transparent : forall re_ok re_match o1 o2 E P c f out1,
+  o_secondary o1 = o_secondary o2 ->
+  run re_ok re_match o1 E P c f = Done out1 ->
+  exists out2, run re_ok re_match o2 E P c f = Done out2 /\
+               out_detail out2 = out_detail out1 /\ out_isexp out2 = out_isexp out1 /\
+               strip (out_trace out2) = strip (out_trace out1).
+Proof. exact observers_are_transparent. Qed.
+Print Assumptions C19_logger_transparent.
+
+(* the line is written with the key of the flag in whose scope the problem was detected: every log site of the model
+   passes the current flag's key (get_variation, vr_detail, rules_loop, prereq_loop); e.g. a bad variation index: *)
+Theorem C19_bad_variation_names_the_flag : forall o f i r st,
+  o_logger o = true -> znth_opt (f_vars f) i = None ->
+  get_variation o f i r st =
+  (Done (err_detail KMalformed), mkst (s_cache st) (s_status st) (OLog (f_key f) (EBadVariation i) :: s_trace st)).
+Proof.
+  intros o f i r st Hl Hv. unfold get_variation. rewrite Hv. unfold bind, log. rewrite Hl. reflexivity.
+Qed.
+Print Assumptions C19_bad_variation_names_the_flag.
